@@ -1,46 +1,51 @@
 #!/usr/bin/env python3
-"""tools/seed_regress.py [seed-id-substring ...]
+"""tools/seed_regress.py [--jobs N] [seed-id-substring ...]
 Re-applies every stored seeded change (seeded/<id>/patch.diff) to a scratch copy of /repo's HEAD (never to /repo itself), checks that its demo still
 fails there (a seed can be neutralised by a later fix: commit), runs the property's own check plus every check recorded as detecting it, and writes
-seeded/REGRESSION.md.  The scratch copy lives under /tmp only while this runs."""
+seeded/REGRESSION.md.  The scratch copies live under /tmp only while this runs.  (Evidence files written by these runs describe mutated trees: re-run the
+real checks afterwards.)"""
 import json, os, subprocess, sys, shutil, tempfile
+from concurrent.futures import ThreadPoolExecutor
 ROOT = "/verif"
-flt = sys.argv[1:]
+args = sys.argv[1:]
+jobs = 1
+if args and args[0] == "--jobs":
+    jobs = int(args[1]); args = args[2:]
+flt = args
 def run(cmd, cwd=None, env=None, timeout=7200):
     e = dict(os.environ); e.update(env or {})
     p = subprocess.run(cmd, shell=True, cwd=cwd, env=e, capture_output=True, text=True, timeout=timeout)
     return p.returncode, p.stdout + p.stderr
-scr = tempfile.mkdtemp(prefix="seedrepo_")
-rows = []
-try:
-    run("git -C /repo archive HEAD | tar -x -C %s" % scr)
-    run("git init -q && git add -A && git -c user.email=x@x -c user.name=x commit -qm base", cwd=scr)
-    for sid in sorted(os.listdir(os.path.join(ROOT, "seeded"))):
-        d = os.path.join(ROOT, "seeded", sid)
-        if not os.path.isdir(d) or (flt and not any(f in sid for f in flt)):
-            continue
-        meta = json.load(open(os.path.join(d, "meta.json")))
-        prop = meta.get("property")
-        checks = [prop] + [c for c, v in (meta.get("checks_run") or {}).items() if v.get("detected") and c != prop]
+def one(sid):
+    d = os.path.join(ROOT, "seeded", sid)
+    meta = json.load(open(os.path.join(d, "meta.json")))
+    prop = meta.get("property")
+    checks = [prop] + [c for c, v in (meta.get("checks_run") or {}).items() if v.get("detected") and c != prop]
+    scr = tempfile.mkdtemp(prefix="seedrepo_")
+    try:
+        run("git -C /repo archive HEAD | tar -x -C %s" % scr)
+        run("git init -q", cwd=scr)
         rc, out = run("git apply %s" % os.path.join(d, "patch.diff"), cwd=scr)
         if rc != 0:
-            rows.append((sid, prop, "patch no longer applies to HEAD", {}))
-            run("git checkout -q -- . && git clean -fdq", cwd=scr)
-            continue
+            return (sid, prop, "patch no longer applies to HEAD", {})
         rc, out = run("PYTHONPATH=%s /venv/bin/python %s" % (scr, os.path.join(d, "demo.py")), cwd=scr)
         demo = rc
         det = {}
         for c in checks:
-            rc, out = run("./check %s --tier quick" % c, cwd=ROOT, env=dict(G3DVC_REPO=scr))
+            rc, out = run("./check %s --tier quick" % c, cwd=ROOT, env=dict(G3DVC_REPO=scr, G3DVC_NPROC=str(max(4, 16 // jobs))))
             det[c] = (rc, len([l for l in out.splitlines() if l.startswith("VIOLATION")]))
-        run("git checkout -q -- . && git clean -fdq", cwd=scr)
-        rows.append((sid, prop, "demo exit %d" % demo, det))
         print(sid, "demo", demo, det, flush=True)
-finally:
-    shutil.rmtree(scr, ignore_errors=True)
-    run("rm -rf %s/replays" % ROOT)
+        return (sid, prop, "demo exit %d" % demo, det)
+    finally:
+        shutil.rmtree(scr, ignore_errors=True)
+sids = [s for s in sorted(os.listdir(os.path.join(ROOT, "seeded"))) if os.path.isdir(os.path.join(ROOT, "seeded", s)) and (not flt or any(f in s for f in flt))]
+with ThreadPoolExecutor(max_workers=jobs) as ex:
+    rows = list(ex.map(one, sids))
+run("rm -rf %s/replays" % ROOT)
 with open(os.path.join(ROOT, "seeded", "REGRESSION.md"), "w") as fh:
-    fh.write("# Seeded changes re-run against the current HEAD of /repo (scratch copy)\n\n| seed | property | demo on HEAD+seed | checks (exit, violations) | detected |\n|---|---|---|---|---|\n")
+    head = subprocess.run("git -C /repo log --oneline -1", shell=True, capture_output=True, text=True).stdout.strip()
+    vh = subprocess.run("git -C /verif log --oneline -1", shell=True, capture_output=True, text=True).stdout.strip()
+    fh.write("# Seeded changes re-run against the current HEAD of /repo (scratch copy)\n\n/repo HEAD: %s; /verif HEAD at the start of the run: %s\n\n| seed | property given | demo on HEAD+seed | checks (exit, violations) | detected |\n|---|---|---|---|---|\n" % (head, vh))
     for sid, prop, demo, det in rows:
         ok = any(rc == 1 and n > 0 for rc, n in det.values())
         fh.write("| %s | %s | %s | %s | %s |\n" % (sid, prop, demo, ", ".join("%s %s" % (c, v) for c, v in det.items()), "yes" if ok else ("n/a" if demo != "demo exit 1" else "NO")))
